@@ -166,18 +166,19 @@ func (f *recFactory) Create(id quickfix.SessionID) (quickfix.MessageStore, error
 
 // Driver is one real session plus its recording collaborators.
 type Driver struct {
-	Cfg    tr.M
-	V      *quickfix.VerifSession
-	App    *recApp
-	In     *quickfix.VerifIn
-	Out    chan []byte
-	closed bool
-	rs     *recFactory
-	tm     []interface{}
-	tmMu   sync.Mutex
-	stop   chan struct{}
-	bs     string
-	Wire   [][]byte // raw outbound frames of the last step
+	Cfg     tr.M
+	V       *quickfix.VerifSession
+	App     *recApp
+	In      *quickfix.VerifIn
+	Out     chan []byte
+	closed  bool
+	rs      *recFactory
+	tm      []interface{}
+	tmMu    sync.Mutex
+	stop    chan struct{}
+	bs      string
+	tickDay int
+	Wire    [][]byte // raw outbound frames of the last step
 }
 
 func cfgBool(c tr.M, k string) bool { return tr.Bool(c, k) }
@@ -224,6 +225,9 @@ func New(cfg tr.M, sf quickfix.MessageStoreFactory, id quickfix.SessionID) (*Dri
 	}
 	if bs == 50 {
 		ss.Set(config.DefaultApplVerID, "FIX.5.0SP2")
+	}
+	if cfgBool(cfg, "resetSeqTime") {
+		ss.Set(config.ResetSeqTime, "12:00:00") // UTC; the ResetTick event moves the clock across it
 	}
 	if p := tr.Str(cfg, "dd"); p != "" {
 		if bs == 50 {
@@ -681,6 +685,12 @@ func (d *Driver) Step(ev tr.M) (row tr.M) {
 		case "Send":
 			err := d.V.Send(AppMsg(tr.Map(ev, "a")))
 			row["sendErr"] = err != nil
+		case "ResetTick":
+			// what the run loop's ticker does, a second before and a second after 12:00:00 UTC of a new day
+			d.tickDay++
+			day := time.Date(2030, 1, 1, 0, 0, 0, 0, time.UTC).AddDate(0, 0, d.tickDay)
+			d.V.Tick(day.Add(12*time.Hour - time.Second))
+			d.V.Tick(day.Add(12*time.Hour + time.Second))
 		}
 	}()
 	row["out"] = orEmpty(d.drainOut())
